@@ -40,19 +40,20 @@ PreSet  == { <<>>, <<BLine>>, <<Cmt>>, <<Cmt, BLine>> }
 SepSet  == { <<BLine>>, <<BLine, BLine>>, <<BLine, Cmt, BLine>>, <<BLine, Cmt2>> }
 PostSet == { <<>>, <<BLine>>, <<BLine, Cmt>>, <<BLine, BLine>> }
 
-Lays(sh) == { [pre |-> a, sep |-> b, post |-> c, term |-> t, cb |-> cb, ct |-> ct] :
+\* dbl: every comment placed by cb / ct is a RUN of two comment lines (only generated when there is such a comment)
+Lays(sh) == { [pre |-> a, sep |-> b, post |-> c, term |-> t, cb |-> cb, ct |-> ct, dbl |-> d] :
                 a \in PreSet, b \in SepSet, c \in PostSet, t \in BOOLEAN,
-                cb \in SUBSET (1..NF(sh)), ct \in SUBSET (1..Len(sh)) }
+                cb \in SUBSET (1..NF(sh)), ct \in SUBSET (1..Len(sh)), d \in BOOLEAN }
 Weight(l) == (IF l.pre = <<>> THEN 0 ELSE 1) + (IF l.sep = <<BLine>> THEN 0 ELSE 1)
            + (IF l.post = <<>> THEN 0 ELSE 1) + (IF l.term THEN 0 ELSE 1)
            + Cardinality(l.cb) + Cardinality(l.ct)
-DefaultLay == [pre |-> <<>>, sep |-> <<BLine>>, post |-> <<>>, term |-> TRUE, cb |-> {}, ct |-> {}]
+DefaultLay == [pre |-> <<>>, sep |-> <<BLine>>, post |-> <<>>, term |-> TRUE, cb |-> {}, ct |-> {}, dbl |-> FALSE]
 
 \* lines of paragraph p (fields numbered globally from g0+1)
 RECURSIVE ParaLines(_,_,_,_,_,_)
 ParaLines(n, g, r, v, lay, p) ==
-  IF n = 0 THEN (IF p \in lay.ct THEN <<Cmt>> ELSE <<>>)
-  ELSE (IF g \in lay.cb THEN <<Cmt2>> ELSE <<>>)
+  IF n = 0 THEN (IF p \in lay.ct THEN (IF lay.dbl THEN <<Cmt, Cmt2>> ELSE <<Cmt>>) ELSE <<>>)
+  ELSE (IF g \in lay.cb THEN (IF lay.dbl THEN <<Cmt2, Cmt>> ELSE <<Cmt2>>) ELSE <<>>)
        \o FieldLines(IF g = r THEN v ELSE PlainV)
        \o ParaLines(n-1, g+1, r, v, lay, p)
 
@@ -61,7 +62,7 @@ Build(sh, r, v, lay) ==
       rest == IF Len(sh) = 2 THEN lay.sep \o ParaLines(sh[2], sh[1]+1, r, v, lay, 2) ELSE <<>>
   IN [lines |-> lay.pre \o p1 \o rest \o lay.post, term |-> lay.term]
 
-LaysFor(sh) == { l \in Lays(sh) : Weight(l) <= W /\ (Len(sh) = 2 \/ l.sep = <<BLine>>) /\ (Len(sh) = 2 \/ 2 \notin l.ct) }
+LaysFor(sh) == { l \in Lays(sh) : Weight(l) <= W /\ (l.dbl => l.cb \cup l.ct # {}) /\ (Len(sh) = 2 \/ l.sep = <<BLine>>) /\ (Len(sh) = 2 \/ 2 \notin l.ct) }
 \* ---- single-line corruptions (rejection clause of C03)
 JunkPool == { <<"K">>, <<"D","K","C","K">>, <<"C","K">>, <<"U","C","K">>, <<"K","S","K">>, <<"K","U","C","K">> }
 JunkIndented == <<"S","K">>          \* an indented line with nothing to continue
